@@ -587,7 +587,14 @@ func (o *C19) checkGroup(w *World, denom string, n int, each func(func(chain str
 			}
 			rec := st.FeeRecord(tx.TxHash)
 			if rec == nil {
-				continue
+				if tx.TxHash == "" {
+					continue
+				}
+				// the transfer was executed and its fee was collected: "the fee actually kept" must be reported, also
+				// when nothing could be paid out of it
+				w.St.Check("C19:fee-record-range")
+				w.Fail("C19", "fee-record-range", "missing", fmt.Sprintf("%s transfer %d (hash %s) of executed batch %d has no fee record although its fee of %s was collected", chain, tx.Id, tx.TxHash, b.BatchNonce, tx.Fee.Amount))
+				return
 			}
 			if o.hashCnt[tx.TxHash] != 1 {
 				continue // several transfers of one hub transaction executed together: the record speaks for the last one
